@@ -142,6 +142,8 @@ type Store struct {
 	usorts  map[string]bool
 	secrets map[string]bool
 	noLift  bool
+	invPairs   [][2]*Term // declared inverse pairs (Int symbols), see bv2int.go
+	invModulus *big.Int
 }
 
 type ufDecl struct {
